@@ -185,6 +185,19 @@ JOB_FUNC = {"hp_remove": W.F_REMOVE, "hp_apply": W.F_APPLY, "aead": "AEAD", "cto
             "buffer": "Buffer", "buffer_ctor": W.F_BUF_INIT, "lib_send": "library", "lib_recv": "library"}
 
 
+def _key_and_larger(key):
+    """a class that kills the process with an overshoot of <= N bytes does so with a
+    larger overshoot as well: prune the larger buckets too (saves one death each)."""
+    out = [key]
+    parts = key.split("|")
+    if len(parts) == 4 and parts[2].startswith("<="):
+        n = int(parts[2][2:])
+        while n < (1 << 17):
+            n *= 2
+            out.append("|".join((parts[0], parts[1], "<=%d" % n, parts[3])))
+    return out
+
+
 class Pool:
     """N sanitizer workers fed from a job queue; crashes are attributed, the class
     in flight is pruned, the job is re-run."""
@@ -199,6 +212,7 @@ class Pool:
         self.crashes = []  # dicts: job, index, note, monitor, kind, line
         self.nspawn = 0
         self.consts = None
+        self.abandoned = []
 
     def close(self):
         for w in self.workers:
@@ -244,15 +258,21 @@ class Pool:
                         self.crashes.append(rec)
                         job["crashes"] = job.get("crashes", 0) + 1
                         if job["crashes"] > self.MAX_CRASHES_PER_JOB:
-                            errors.append("job %r keeps crashing (%d times); last: %s"
-                                          % (job["spec"].get("k"), job["crashes"], line))
-                            return
+                            # a job that keeps killing workers is given up (reported as a cap);
+                            # the deaths themselves are findings and are reported as such
+                            self.abandoned.append("%s after %d worker deaths" % (
+                                json.dumps(job["spec"], default=core.jdefault)[:120], job["crashes"]))
+                            results[job["order"]] = (job, {"counts": {}, "viol": []})
+                            continue
                         if val.get("index") is None or val.get("index") < -1:
                             errors.append("worker died outside any case: %s / %s"
                                           % (line, (val.get("stderr") or "")[-800:]))
                             return
                         if note and note.get("key"):
-                            self.pruned.add(note["key"])
+                            # (only for overflowing writes; stray reads are caught non-fatally
+                            # by the shim whatever their size)
+                            self.pruned.update(_key_and_larger(note["key"]) if note.get("access") == "write"
+                                               else [note["key"]])
                         else:
                             job["skip"].add(val["index"])
                         queue.appendleft(job)
@@ -283,8 +303,10 @@ def _ranges_by_work(lo, hi, work, target):
 BIG_LENS = list(range(1601, 2101, 7)) + [4096, 16383, 16384, 65535]
 
 
-def plan(tier, parts):
-    """-> (jobs, bounds).  Jobs are ordered simplest-first inside each part."""
+def plan(tier, parts, seed=0):
+    """-> (jobs, bounds).  Jobs are ordered simplest-first inside each part.
+    VERIF_SEED only selects which fifth of the thorough tier's large-length grid the
+    quick tier adds to its fixed core."""
     jobs = []
     bounds = {}
     thorough = tier == "thorough"
@@ -302,6 +324,8 @@ def plan(tier, parts):
             for a, b in _ranges_by_work(0, 1601, lambda L: 90, 45000):
                 add("hp_remove", {"k": "hp_remove", "cipher": "aes-256-ecb", "lo": a, "hi": b,
                                   "offs": "edge", "extremes": True}, True)
+            add("hp_remove", {"k": "hp_remove", "cipher": "aes-128-ecb", "lens": BIG_LENS[seed % 5::5],
+                              "offs": "edge"}, True)
         else:
             for c in ciphers:
                 for j in range(0, len(BIG_LENS), 25):
@@ -309,7 +333,8 @@ def plan(tier, parts):
                                       "offs": "edge"}, True)
         bounds["hp_remove"] = {"ciphers_full_grid": ciphers, "packet_len": "0..1600 (every length)",
                                "pn_offset": "0..len+24 (every offset) + %s" % W.OFF_EXTREMES,
-                               "edge_grid": ("aes-256-ecb, every length, offsets near 0 / len / scratch end"
+                               "edge_grid": ("aes-256-ecb, every length, offsets near 0 / len / scratch end; "
+                                             "seed-selected fifth of the thorough large-length grid"
                                              if not thorough else
                                              "lengths %d..2100 step 7, 4096, 16383, 16384, 65535" % 1601)}
     if "hp_apply" in parts:
@@ -593,7 +618,7 @@ def run(ctx):
     certs.ensure_all()
     parts = [p for p in PARTS if ctx.only_parts is None or p in ctx.only_parts]
     thorough = ctx.tier == "thorough"
-    jobs, bounds = plan(ctx.tier, parts)
+    jobs, bounds = plan(ctx.tier, parts, ctx.seed)
     pool = Pool(core.NCPU)
     judge = Judge(ctx, pool)
     t0 = time.time()
@@ -612,6 +637,8 @@ def run(ctx):
     finally:
         pool.close()
     judge.absorb_crashes()
+    for a in pool.abandoned:
+        ctx.cap("job abandoned: " + a)
 
     K = pool.consts or {}
     ctx.cov["bounds"] = dict(bounds, contract_constants=K,
@@ -693,7 +720,7 @@ def replay(ctx, obj):
     if kind == "crash":
         mon, k, line = classify_crash(val)
         print("  worker died (exit %s): %s" % (val.get("rc"), line))
-        for l in (val.get("stderr") or "").splitlines()[:14]:
+        for l in (val.get("stderr") or "").splitlines()[:9]:
             print("    | " + l)
         print("still violates: yes (process death, monitor=%s kind=%s)" % (mon, k))
         return 1
